@@ -275,8 +275,13 @@ def light_pc(p):
     return [a for a in p.pc if not is_heavy(a)]
 
 
+def lighter_pc(p):
+    """for path feasibility only: also without quantified hypotheses (over-approximation: more paths kept)"""
+    return [a for a in p.pc if not is_heavy(a) and not z3.is_quantifier(a)]
+
+
 def feasible(p, extra=None, timeout_ms=400):
-    asm = light_pc(p)
+    asm = lighter_pc(p)
     if extra is not None:
         if z3.is_false(extra):
             return False
